@@ -121,6 +121,9 @@ func TestC10(t *testing.T) {
 		c.mcfg = GenMinterCfg(t, 5, 60, 36)
 		params, sched := c.mcfg.Build()
 		c.sched = sched
+		if c.mcfg.Unordered() {
+			c.classes["minters_listed_out_of_order"] = true
+		}
 		c.dcfg = GenDistrCfg(t, integratedOpts())
 		c.run = NewDistrRun(t, c.dcfg, distrDenoms)
 		if c.run == nil {
@@ -201,6 +204,9 @@ func TestC10(t *testing.T) {
 				if ok {
 					c.mcfg, c.sched = n, s
 					c.classes["minter_update_accepted"] = true
+					if n.Unordered() {
+						c.classes["minters_listed_out_of_order"] = true
+					}
 					if n.StartOffNs > 0 {
 						c.classes["start_moved_to_future"] = true
 					}
